@@ -2,12 +2,12 @@ import inspect
 import warnings
 from collections.abc import Mapping
 from functools import partial
-from typing import Callable, Dict, Type, TypeVar
+from typing import Callable, Dict, Optional, Type, TypeVar
 
 from ..utils import exceptions as exc
 from ..utils.compat import is_classvar, is_final
 from ..utils.datastructures import unprovided
-from ..utils.functional import pop
+from ..utils.functional import is_local_var, pop
 from ..utils.transform import TypeTransformer
 from .base import BaseParser
 from .field import ParserField
@@ -28,8 +28,24 @@ class ClassParser(BaseParser):
     def __init__(self, obj, *args, **kwargs):
         if not inspect.isclass(obj):
             raise TypeError(f"{self.__class__}: object need to be a class, got {obj}")
+        # a class declared inside a function can name what is visible there (e.g. another local class)
+        self.local_namespace = self.get_local_namespace() if is_local_var(obj) else None
         super().__init__(obj, *args, **kwargs)
         self.init_parser = None
+
+    @classmethod
+    def get_local_namespace(cls) -> Optional[dict]:
+        # the namespace of the function that is executing the class statement: the first frame outside this package
+        # (a snapshot: what is bound there at the time of the declaration)
+        frame = inspect.currentframe()
+        try:
+            while frame is not None:
+                if not str(frame.f_globals.get('__name__', '')).startswith('utype.'):
+                    return dict(frame.f_locals) if frame.f_locals is not frame.f_globals else None
+                frame = frame.f_back
+        finally:
+            del frame
+        return None
 
     @property
     def in_out_identical(self):
@@ -106,6 +122,9 @@ class ClassParser(BaseParser):
                     warning_settings.globals_name_conflict
                 )
 
+        if self.local_namespace:
+            # local names shadow the module's
+            dic.update(self.local_namespace)
         dic[name] = self.obj
         # !IMPORTANT: we need to override __name__ for current obj
         # cause in the locals, same name may be the different object, we should be careful about that
